@@ -12,7 +12,6 @@
 (***************************************************************************)
 EXTENDS Integers, Sequences, TLC
 CONSTANTS Dev
-TickUs == 15625
 VARIABLES sh, now,
           \* Toggle (+ steady debounce)
           released, tog, dbLatest, prevSig, lastFlip, flips,
@@ -88,6 +87,9 @@ PfFilter(level) ==
        /\ UNCHANGED <<sh, now, tgl, bdv, wdv>>
 
 (* ---- SimpleWatchdog (microseconds) ---- *)
+\* microseconds per tick: 1/64 s, unless the history is on another grid (the watchdog counts whole microseconds: histories
+\* on grids that are not binary fractions of a second exercise timeouts such as 0.70049 s exactly at their boundary)
+TickUs == IF "tickus" \in DOMAIN sh THEN sh.tickus ELSE 15625
 NowUs == now * TickUs
 WdReset ==
     /\ sh.kind = "wd" /\ wdStart' = NowUs /\ wdExp' = NowUs + wdTimeout /\ wdEpochs' = 0 /\ wdEnabled' = TRUE
